@@ -12,10 +12,122 @@ import specgen
 import runlib
 import execlib
 import popgen
+import os
+
 import specgen_metrics
+import specgen_hw
+import patterns
 from props.c06 import partition_info
 
 LEVEL = "translation_validation"
+
+
+def unbound_class(name, text, spec):
+    """Structural description (from the specification and the emitted text) of a name the metrics-mode program reads unbound."""
+    import ast
+    tree = ast.parse(text)
+    reads = [n for n in ast.walk(tree) if isinstance(n, ast.Name) and n.id == name and isinstance(n.ctx, ast.Load)]
+    assigned = any(isinstance(n, ast.Name) and n.id == name and isinstance(n.ctx, ast.Store) for n in ast.walk(tree))
+    in_format, in_shape = [], []
+    for call in ast.walk(tree):
+        if not isinstance(call, ast.Call):
+            continue
+        if isinstance(call.func, ast.Name) and call.func.id == "Format" and call.args:
+            in_format += [n for n in ast.walk(call.args[0]) if n in reads] if isinstance(call.args[0], ast.Name) else []
+        for k in call.keywords:
+            if k.arg == "shape":
+                in_shape += [n for n in ast.walk(k.value) if isinstance(n, ast.Name) and n.id == name]
+    # (a) `Format(<T>_<ranks>, ...)` for a format whose rank-order spells a variant of T that the program never builds, or
+    # builds only in a later Einsum: the first occurrence of the name (source order) is that read
+    m = runlib.NAME_RE.match(name)
+    occ = sorted(((n.lineno, n.col_offset, isinstance(n.ctx, ast.Load), n) for n in ast.walk(tree) if isinstance(n, ast.Name) and n.id == name), key=lambda x: x[:2])
+    fmt_variant = bool(m and m.group(1) in spec.decl and occ and occ[0][2] and any(occ[0][3] is n for n in in_format))
+    # (b) the forced explicit shape of an output rank made by flatten(): `shape=[.., JM, ..]`
+    flats = set("".join(f) for f in partition_info(spec)[1])
+    return {"unbound_is_format_tensor_variant": fmt_variant,
+            # (c) `<r>_pos` of the eager-interval form: metrics mode never wraps the loop in enumerate(...)
+            "unbound_is_loop_position": bool(name.endswith("_pos") and not assigned),
+            "unbound_is_flattened_rank_in_shape": bool(name in flats and not assigned and reads and len(in_shape) == len(reads))}
+
+
+def same_outcome(a, b):
+    """Both executions end the same way: the same output report, or the same error (the same unbound name)."""
+    if a["status"] != b["status"]:
+        return False
+    if a["status"] == "RAN":
+        return a["out"] == b["out"]
+    return a.get("unbound", a.get("err")) == b.get("unbound", b.get("err"))
+
+
+def out_partitioned(spec):
+    """output -> set of its declared ranks that the mapping partitions (read from the parsed mapping)."""
+    res = {}
+    for out, parts in (spec.mapping.get_partitioning() or {}).items():
+        res[out] = set()
+        for key in parts:
+            ranks = [str(t) for t in key.children]
+            res[out].add("".join(ranks))         # a rank made by flatten() is named by the concatenation
+    return res
+
+
+def decl_with_flats(spec):
+    """declared ranks of every tensor, plus the names of flattened ranks made of them."""
+    flats = ["".join(f) for f in partition_info(spec)[1]]
+    return {t: list(rs) + flats for t, rs in spec.decl.items()}
+
+
+def shape_witness(spec, prob, rng):
+    """A concrete input on which the misaligned explicit shape is wrong: extents in which the rank's own extent exceeds the
+    extent it is given, and all-ones dense inputs (every point of a sum of products of positive numbers is non-zero, so the
+    output holds a point beyond the emitted shape).  None when the Einsum is not a plain sum of products."""
+    struct = [s for s in spec.structs if s["out"] == prob["tensor"]]
+    if not struct or any(t["take"] is not None for t in struct[0]["terms"]) or not isinstance(prob["shape"], list):
+        return None
+    for rid, got, want in zip(prob["rank_ids"], prob["shape"], prob["want"] or []):
+        if got != want and want is not None and got in sum(spec.decl.values(), []):
+            ext = runlib.default_extents(spec, rng, 2, 3)
+            ext[want], ext[got] = 4, 2
+            return {"extents": ext, "inputs": "all ones (dense)", "rank_id": rid, "declared_rank": want, "given_extent_of": got,
+                    "point_outside_shape": "%s = %d >= %s = %d" % (want.lower(), ext[want] - 1, got, ext[got])}
+    return None
+
+
+def static_conditions(ctx, it, spec, text_m, text_p, stats):
+    """Static side conditions on the emitted text (all inputs at once): explicit shapes line up with rank ids in both
+    modes and are present in metrics mode; the payload pattern of a leader-follower loop names the operands in argument
+    order.  -> number of violations reported."""
+    bad = 0
+    part = out_partitioned(spec)
+    declf = decl_with_flats(spec)
+    for mode, text in (("metrics", text_m), ("plain", text_p)):
+        cons = [c for c in patterns.tensor_constructors(text) if c[3] is not None]
+        if mode == "metrics":
+            stats["explicit_shapes"] += len(cons)
+            for var, name, ids, shape in cons:
+                roots = [patterns.root_of(r, declf.get(name, []), part.get(name, set())) for r in ids]
+                # partitions of one rank separated by another rank
+                if any(roots[i] == roots[j] and any(r != roots[i] for r in roots[i:j]) for i in range(len(roots)) for j in range(i + 1, len(roots))):
+                    stats["explicit_shapes_partitioned_interleaved"] += 1
+        for prob in patterns.shape_problems(text, declf, part, spec.outs, require_shape=(mode == "metrics")):
+            bad += 1
+            w = shape_witness(spec, prob, ctx.rng)
+            ctx.violation({"kind": "explicit-" + prob["kind"], "mode": mode},
+                          "%s-mode program builds tensor %s with rank_ids %s but shape %s (extent of rank_ids[i] expected: %s)%s" % (
+                              mode, prob["tensor"], prob["rank_ids"], prob["shape"], prob["want"],
+                              "" if w is None else "; e.g. %s" % w["point_outside_shape"]),
+                          {"yaml": it["yaml"], "text": text, "problem": prob, "witness": w}, no_input=w is None)
+    stats["fiber_intersections"] += text_m.count("Fiber.intersection(")
+    m = it.get("meta") if isinstance(it.get("meta"), dict) else {}
+    if "leaders" in m:
+        seen = {}
+        for o, comp, typ, x in m["intersectors"]:
+            if typ == "leader-follower":
+                seen.setdefault((comp, x), set()).update(ld for o2, x2, ld in m["leaders"] if o2 == o and x2 == x)
+        stats["lf_shared_rank_other_leader"] += 1 if any(len(v) > 1 for v in seen.values()) else 0
+    stats["metrics_swizzles_for_mergers"] += (it.get("meta") or {}).get("mergers", 0) if isinstance(it.get("meta"), dict) else 0
+    # reported after the executions of this very program (the failing-input search; a compiled-only item is then executed too)
+    it["lf_problems"] = patterns.lf_payload_problems(text_m)
+    return bad + len(it["lf_problems"])
 
 
 def run(ctx):
@@ -28,8 +140,39 @@ def run(ctx):
         y, meta = specgen_metrics.gen(rng)
         items.append({"yaml": y, "kind": "generated", "arch": True, "meta": meta})
     items += list(popgen.compute_only(rng, 20 if q else 150))
+    # metrics mode on the classes the four fixed templates never reach (tools/specgen_hw.py): cascades over shared inputs
+    # whose Einsums bind the SAME components with per-Einsum parameters, partitioned (interleaved) outputs, other rank
+    # names; and the plain populations of C02/C03/C01 wrapped in a small architecture
+    items += [specgen_hw.gen_cascade(rng) for _ in range(190 if q else 1000)]
+    for gen, n in ((popgen.shape, 100 if q else 500), (popgen.occupancy, 40 if q else 250), (popgen.plain, 30 if q else 150)):
+        for it in gen(rng, n):
+            w = specgen_hw.wrap_single(rng, it)
+            if w is not None:
+                items.append(w)
+    # index math (C04's class) with metrics on: the eager-interval form needs the loop position that metrics mode suppresses
+    for it in popgen.affine(rng, 60 if q else 400):
+        w = specgen_hw.wrap_single(rng, it)
+        if w is not None:
+            items.append(w)
+    # compiled only (both static side conditions below are evaluated on them; no execution)
+    static_only = [specgen_hw.gen_cascade(rng) for _ in range(250 if q else 3000)]
+    # index-math outputs are built with an explicit shape in plain mode as well (iterRangeShapeRef over the output rank)
+    for it in list(popgen.shape(rng, 100 if q else 1500)) + list(popgen.affine(rng, 80 if q else 800)):
+        w = specgen_hw.wrap_single(rng, it)
+        if w is not None:
+            static_only.append(w)
+    pop = os.environ.get("VERIF_C11_POP")        # development aid: restrict to kinds containing this substring
+    if pop:
+        items = [it for it in items if pop in it["kind"]]
+        static_only = [it for it in static_only if pop in it["kind"]]
+    for it in static_only:
+        it["static_only"] = True
+    items += static_only
     cases = []
-    stats = {"by_kind": {}, "rejected": {}, "intersector": {}, "cache": 0}
+    stats = {"by_kind": {}, "rejected": {}, "intersector": {}, "cache": 0, "static_only": 0, "explicit_shapes": 0,
+             "explicit_shapes_partitioned_interleaved": 0, "fiber_intersections": 0, "lf_shared_rank_other_leader": 0,
+             "metrics_swizzles_for_mergers": 0}
+    static_bad = 0
     for it in items:
         try:
             spec = runlib.Spec(it["yaml"])
@@ -40,19 +183,35 @@ def run(ctx):
             stats["rejected"][k] = stats["rejected"].get(k, 0) + 1
             continue
         kind = it["kind"]
+        static_bad += static_conditions(ctx, it, spec, text_m, text_p, stats)
+        if it.get("static_only"):
+            stats["static_only"] += 1
+            if not it.get("lf_problems"):
+                continue
         stats["by_kind"][kind] = stats["by_kind"].get(kind, 0) + 1
-        if "meta" in it:
+        if "meta" in it and "cache" in it["meta"]:
             i = str(it["meta"]["intersector"])
             stats["intersector"][i] = stats["intersector"].get(i, 0) + 1
             stats["cache"] += 1 if it["meta"]["cache"] else 0
-        syms = {k: rng.randint(1, 4) for k in partition_info(spec)[0]}
-        ext = runlib.default_extents(spec, rng, 1, 5)
-        data, scal = runlib.gen_inputs(spec, ext, rng, density=rng.choice([1.0, 0.7, 0.4]))
-        cm = execlib.Case(spec, text_m, ext, data, scal, extra_ints=syms, meta={"kind": kind, "mode": "metrics"})
-        cp = execlib.Case(spec, text_p, ext, data, scal, extra_ints=syms, meta={"kind": kind, "mode": "plain"})
-        cm.partner = cp
-        cases += [cm, cp]
+        it["cases"] = []
+        for rep in range(4 if it.get("lf_problems") else 1):       # a broken side condition: several inputs
+            syms = {k: rng.randint(1, 4) for k in partition_info(spec)[0]}
+            ext = runlib.default_extents(spec, rng, 1 if rep == 0 else 2, 5)
+            data, scal = runlib.gen_inputs(spec, ext, rng, density=rng.choice([1.0, 0.7, 0.4]) if rep == 0 else 1.0)
+            cm = execlib.Case(spec, text_m, ext, data, scal, extra_ints=syms, meta={"kind": kind, "mode": "metrics"})
+            cp = execlib.Case(spec, text_p, ext, data, scal, extra_ints=syms, meta={"kind": kind, "mode": "plain"})
+            cm.partner = cp
+            cases += [cm, cp]
+            it["cases"].append(cm)
     execlib.evaluate(cases, "c11")
+    for it in items:
+        for names, args, line in it.get("lf_problems") or []:
+            failing = [c for c in it.get("cases", []) if not (c.result["status"] == "RAN" and c.result["out"] == "OK")]
+            rep = failing[0].replay() if failing else {"yaml": it["yaml"], "text": it["cases"][0].text if it.get("cases") else None}
+            rep["line"] = line
+            ctx.violation({"kind": "leader-follower-payload-order"},
+                          "payload pattern names operands %s but Fiber.intersection is given %s (payloads come in argument order): %s%s" % (
+                              names, args, line, "; e.g. %s" % getattr(failing[0], "raw", str(failing[0].result))[:120] if failing else ""), rep, no_input=not failing)
     bad = 0
     pairs = 0
     for c in cases:
@@ -63,10 +222,18 @@ def run(ctx):
         rm, rp = c.result, p.result
         if rm["status"] == "RAN" and rm["out"] == "OK" and rm["inp"] == "OK":
             continue
-        bad += 1
         plain_ok = rp["status"] == "RAN" and rp["out"] == "OK"
+        if c.meta["kind"] == "affine+hw" and not plain_ok and same_outcome(rm, rp):
+            # the plain program already differs from the Einsum in exactly the same way: the index-math defects F4/F5/F11/F12
+            # that C04 reports (known_findings.json); nothing the instrumentation changed
+            stats["affine_same_as_plain_wrong"] = stats.get("affine_same_as_plain_wrong", 0) + 1
+            continue
+        bad += 1
         key = {"kind": "metrics-mode-differs" if plain_ok else "both-modes-wrong",
                "take_in_sum_selected_lacks_rank": any(specgen.take_selected_lacks_rank(s) for s in c.spec.structs)}
+        if rm["status"] == "ERR" and "unbound" in rm:
+            key["error"] = "unbound"
+            key.update(unbound_class(rm["unbound"], c.text, c.spec))
         rep = c.replay()
         rep["plain_text"] = p.text
         rep["plain_result"] = p.raw if hasattr(p, "raw") else None
@@ -74,7 +241,7 @@ def run(ctx):
             (c.raw if hasattr(c, "raw") else rm)[:200] if True else "", (p.raw if hasattr(p, "raw") else rp)[:60] if True else ""), rep)
     distinct = len(set(c.text for c in cases if c.meta["mode"] == "metrics"))
     ctx.coverage.update({
-        "programs": distinct, "executions": len(cases), "disagreements_checked": bad, "evaluations": len(cases), "distinct_nontrivial": distinct,
+        "programs": distinct, "executions": len(cases), "disagreements_checked": bad + static_bad, "static_violations": static_bad, "evaluations": len(cases), "distinct_nontrivial": distinct,
         "pairs_compared": pairs, "population": stats,
         "rule": "five accelerator YAMLs (random symbolic sizes and inputs, 2/6 repetitions) + generated architectures over 4 Einsum templates x loop orders x rank orders x "
                 "formats x {DRAM, optional cache, buffet with lazy/evict-on bindings, intersector two-finger/leader-follower(any leader)/skip-ahead/none, mul/add} + compute-only cascades; "
@@ -88,6 +255,14 @@ def run(ctx):
 def replay(ctx, rep):
     r = rep["replay"]
     spec = runlib.Spec(r["yaml"])
+    if rep.get("key", {}).get("kind", "").startswith(("explicit-shape", "leader-follower")) and "inputs" not in r:
+        it = {"yaml": r["yaml"], "kind": "replay"}
+        n = static_conditions(ctx, it, spec, spec.compile(arch=True), spec.compile(arch=False), __import__("collections").defaultdict(int))
+        print(spec.compile(arch=True))
+        print("static side conditions broken:", n, it.get("lf_problems"))
+        if n:
+            print("VIOLATION property=C11 replay=<given file>")
+        return 1 if n else 0
     data = {t: {tuple(int(x) for x in k.split(",") if x != ""): v for k, v in d.items()} for t, d in r["inputs"].items()}
     cs = [execlib.Case(spec, spec.compile(arch=a), r["extents"], data, r["scalars"], extra_ints=r.get("extra_ints")) for a in (True, False)]
     execlib.evaluate(cs, "c11r")
